@@ -35,11 +35,21 @@ def cfg_text(consts, init="GenInit", nxt="GenNext", invariants=("Emit",), extra=
     return "\n".join(lines) + "\n"
 
 
-def gen_family(name, consts, *, timeout=900, workers=8, simulate=None, depth=None, seed=None):
-    """Enumerate (or sample with -simulate) the scenarios of one EinoGen configuration."""
-    run = vlib.tlc("EinoGen", "gen_%s.cfg" % name, files={"gen_%s.cfg" % name: cfg_text(consts)}, workers=workers,
-                   timeout=timeout, simulate=simulate, depth=depth, seed=seed, heap="6g")
-    vlib.tlc_must_pass(run, "scenario generation " + name)
+def gen_family(name, consts, *, timeout=900, workers=8, simulate=None, depth=None, seed=None, sim_seconds=None, keep=None):
+    """Enumerate (or sample with -simulate) the scenarios of one EinoGen configuration.
+    Simulation never ends by itself (behaviours that stop in a finished scenario do not count towards num): it is given
+    sim_seconds of wall clock and whatever it printed by then is the sample; `keep` bounds the sample (seeded choice)."""
+    if simulate:
+        run = vlib.tlc("EinoGen", "gen_%s.cfg" % name, files={"gen_%s.cfg" % name: cfg_text(consts)}, workers=workers,
+                       timeout=sim_seconds or 45, simulate=simulate, depth=depth, seed=seed, heap="6g")
+        if not run.timed_out:
+            vlib.tlc_must_pass(run, "scenario generation " + name)
+        elif run.error not in (None, "other"):
+            raise Inconclusive("scenario generation %s: TLC reported %s" % (name, run.error))
+    else:
+        run = vlib.tlc("EinoGen", "gen_%s.cfg" % name, files={"gen_%s.cfg" % name: cfg_text(consts)}, workers=workers,
+                       timeout=timeout, heap="6g")
+        vlib.tlc_must_pass(run, "scenario generation " + name)
     seen, out = set(), []
     for (js,) in [t for t in run.tagged("CASE") if len(t) == 1]:
         if js in seen:
@@ -49,6 +59,9 @@ def gen_family(name, consts, *, timeout=900, workers=8, simulate=None, depth=Non
         sc["fam"] = name
         out.append((js, sc))
     out.sort(key=lambda t: t[0])          # TLC's workers print in a nondeterministic order: make every later seeded choice reproducible
+    if keep and len(out) > keep:
+        random.Random((seed or 0) * 7 + 1).shuffle(out)
+        out = sorted(out[:keep], key=lambda t: t[0])
     return [sc for _, sc in out], run
 
 
